@@ -23,6 +23,20 @@ CLAIMED = {
  'C19': ('Full statement: includes/overlaps are exactly the closed-range definitions and overlap is symmetric; under the quantifier\'s tie condition the sweep output is a permutation of all overlapping (A,B) pairs, '
          'each exactly once (soundness and no-duplicates unconditionally; exact iff condition for completeness; refutation witness without the tie condition).',
          'translator-regenerated predicates + hand model of the sweep (events, stable sort, deques) with exact correspondence; invariant proof over sorted event lists', '4/C19'),
+ 'C02': ('Proved for ALL segments and all t in [0,1] over a model regenerated from the source: the reported box enlarged by 0.06% of the control-polygon extent contains the curve (no hypothesis), '
+         'and the box itself does when no derivative zero lies in the 1% end slivers; tightness of all four sides; the path box is the join of the segment boxes. Float root placement is measured.',
+         'translator-regenerated kernels + hand model of BoundingBox.extend/bounds with bit-exact correspondence; real-analysis proof (maximum at critical point, Taylor sliver bound)', '4/C02'),
+ 'C05': ('Proved over R: line-line candidate point and parameters exact with the exact reporting window, parallel -> none, receiver symmetry in the interior; carrier <-> aligned root; quadratic roots exact; '
+         'Cardano sound AND complete in all three discriminant branches above the degeneracy threshold, bounded residual below it; end-to-end curve-line characterisation. Float accuracy is measured; the near-degenerate band is a recorded known finding.',
+         'translator-regenerated solvers; field/nra + trigonometric (cos 3x, acos) and Rpower cube-root proofs; kernel cross-check through a recorded libm table; exact-arithmetic root-isolation search', '4/C05'),
+ 'C08': ('Proved for all inputs on a hand model tied by exact correspondence: node-list round trips are the identity (open and properly closed chains, any number of trips), the closing rule adds exactly one segment, every rotation of a closed node list '
+         '(start not repeated) gives a cyclic rotation of the same segments (refutation witness otherwise), SVG string shape; textual round trips relative to stated hypotheses on repr/float().',
+         'hand-written executable model (incl. regex matchers) + differential correspondence; structural induction proofs; section hypotheses for the runtime', '4/C08'),
+ 'C15': ('Proved over R: line lookup inverts evaluation for every real t (non-degenerate extent), off-carrier points (>= 2e-7) give -1, quadratic lookup succeeds within the 2e-7 pairing window away from stationary parameters and is exact when the abscissa is unique. '
+         'Cubic lookup is search-only. One recorded known finding (end-point lookup of a quadratic).',
+         'translator-regenerated kernels; case analysis on isclose/ordering + field proofs; bit-exact cross-check; targeted search (steep lines, linear-in-x quadratics)', '4/C15'),
+ 'C18': ('Full statement over R for all segments and t with non-vanishing derivative: tangent = unit derivative (also via Derive), line tangent = unit chord, normal = tangent turned ccw for lines and curves, start/end angles = leg directions, curvature formula for cubics and quadratics with the hodograph\'s derivative, line curvature 2^-52.',
+         'translator-regenerated kernels; trig (atan2/cos/sin) and Rpower lemmas; kernel cross-check through a recorded libm table', '4/C18'),
 }
 PENDING_REASON = 'machinery for this property is not built yet in this revision (see DESIGN section 7); it is not claimed on the strength of a search alone'
 ALL = ['C%02d' % i for i in range(1, 21)]
